@@ -22,6 +22,8 @@ RECOGNISED = [
     ["-I/p"], ["-I", "/p"], ["-Irel/p"], ["-I", "rel/p"], ["-I."],
     ["-isystem", "/s"], ["-isystem/s"], ["-isystem", "rel/s"],
     ["-include", "f.h"], ["-includef.h"], ["-include", "/abs/g.h"],
+    # runs of white space inside a value (two blanks, a tab) survive every rendering of the command string
+    ["-DW=x  y"], ["-include", "t\tf.h"],
 ]
 CATALOGUE = [
     ["-g"], ["-g3"], ["-ggdb"], ["-gdwarf-4"], ["-O"], ["-O2"], ["-Ofast"], ["-Os"], ["-o", "x"], ["-ox"], ["-c"], ["-Wall"], ["-std=c++17"],
@@ -194,6 +196,54 @@ def _history(arg):
     return n, out[:5]
 
 
+def _db_history(arg):
+    """The same call sequences as entries of ONE compilation database (config.load_database) and as calls on ONE
+    ArgumentParser object: entry k must get what its own vector says, whatever the entries before it were."""
+    seqs, argv0 = arg
+    import json
+    from codebasin import config
+
+    root = env.fresh_dir("c11db")
+    for k in range(4):
+        open(os.path.join(root, f"f{k}.c"), "w").write("int x;\n")
+    out = []
+    n = 0
+    imp = IMPLICIT.get(os.path.basename(argv0), [])
+    for seq in seqs:
+        n += 1
+        exp = []
+        for i in seq:
+            d, inc, sysd, f = _hist_expected(HIST[i])
+            exp.append((d + imp, sorted(inc + sysd), f))
+        db = os.path.join(root, "db.json")
+        with open(db, "w") as fh:
+            json.dump([{"file": f"f{k}.c", "directory": root, "arguments": [argv0] + HIST[i] + ["-c", f"f{k}.c"]} for k, i in enumerate(seq)], fh)
+        env.reset_compilers()
+        for mode in ("one database", "one ArgumentParser object"):
+            try:
+                if mode == "one database":
+                    cfg = [e for e in config.load_database(db, root) if e["pass_name"] == "default"]
+                    got = [(list(e["defines"]), sorted(e["include_paths"]), list(e["include_files"])) for e in cfg]
+                else:
+                    p = config.ArgumentParser(argv0)
+                    got = []
+                    for i in seq:
+                        c = [c for c in p.parse_args(list(HIST[i])) if c.pass_name == "default"][0]
+                        got.append((list(c.defines), sorted(c.include_paths), list(c.include_files)))
+            except BaseException as e:  # noqa
+                got = f"{type(e).__name__}: {str(e)[:120]}"
+            if got != exp:
+                out.append(Failure("history", {"argv0": argv0, "calls": [HIST[j] for j in seq], "through": mode},
+                                   expected=[{"defines": a, "include_paths": b, "include_files": c} for a, b, c in exp],
+                                   observed=got if isinstance(got, str) else [{"defines": a, "include_paths": b, "include_files": c} for a, b, c in got]))
+                break
+        if len(out) >= 5:
+            break
+    import shutil
+    shutil.rmtree(root, ignore_errors=True)
+    return n, out
+
+
 def _hist_expected(v):
     d, inc, sysd, f = [], [], [], []
     i = 0
@@ -235,13 +285,15 @@ def run(tier):
     hl = 2 if tier == "quick" else 3
     hseqs = [s_ for k in range(1, hl + 1) for s_ in itertools.product(range(len(HIST)), repeat=k)]
     hres = par.pmap(_history, [(hseqs[i::8], a0) for a0 in argv0s for i in range(8)])
+    dseqs = [s_ for k in range(2, hl + 2) for s_ in itertools.product(range(len(HIST)), repeat=k)]
+    hres += par.pmap(_db_history, [(dseqs[i::8], a0) for a0 in argv0s for i in range(8)])
     for r in hres:
         rep.add(r[1])
     n = sum(r[0] for r in res) + sum(r[0] for r in hres)
     rep.coverage.update({
         "evaluations": n, "distinct_nontrivial": sum(r[3] for r in res),
         "rule": desc + "; each also rendered as a shell-quoted command string; distinct = distinct expected extractions",
-        "groups": len(alpha), "failing_cases": sum(r[1] for r in res), "call_histories": len(hseqs) * len(argv0s),
+        "groups": len(alpha), "failing_cases": sum(r[1] for r in res), "call_histories": (len(hseqs) + 2 * len(dseqs)) * len(argv0s),
         "samples": [{"argv0": "mycc", "argv": ["-DA=b c", "-ccbin", "g++", "-I", "rel/p"], "expected": expected([["-DA=b c"], ["-ccbin", "g++"], ["-I", "rel/p"]])}],
         "exhaustive": True,
     })
